@@ -519,6 +519,8 @@ def expiry(seed, n=40):
             else:
                 dl = rnd.choice([b'DeletionDate=never', b'', b'DeletionDate=2020-02-30T00:00:00', b'DeletionDate=',
                                  b'deletiondate=1970-01-01T00:00:00', b'DeletionDate=1970-01-01'])
+            if dt is None and rnd.random() < 0.5:
+                dl = dl + b'\nDeletionDate=1971-02-03T04:05:06'      # the FIRST DeletionDate line counts, also when malformed
             content = b'[Trash Info]\nPath=/x/e%d\n' % i + dl + b'\n'
             slot = b'e%d' % i
             with open(tdir + b'/info/' + slot + b'.trashinfo', 'wb') as f:
